@@ -380,9 +380,32 @@ def install(eng):
                 return acc
             acc = eng.call_value(ctx.frame, f, [acc, v])
             n += 1
-            if n > 64:
+            if n > max(4, getattr(eng, 'loop_bound', 64)):
                 raise PathEnd('unwind', 'fold')
     m(r'^<.* as (std::iter::|core::iter::)?Iterator>::fold$', m_fold, fallback=True)
+
+    def m_try_fold(eng, args, ctx):
+        it, acc, f = args
+        oty = norm_ty(ctx.dest_ty) if ctx.dest_ty else 'Option'
+        head = ty_head(oty)
+        if head not in ('Option', 'Result'):
+            raise Unsupported('try_fold into ' + oty)
+        n = 0
+        while True:
+            v = it_next(eng, it, ctx.frame)
+            if v is None:
+                if head == 'Option':
+                    return opt(eng, oty, acc)
+                return EnumV(oty, 0, {'Ok': {0: Cell(acc)}}, None, eng.P.enum_def('Result'))
+            r = eng.call_value(ctx.frame, f, [acc, v])
+            good = 1 if head == 'Option' else 0
+            if not variant_is(eng, r, good):
+                return r
+            acc = payload0(eng, r, 'Some' if head == 'Option' else 'Ok')
+            n += 1
+            if n > max(4, getattr(eng, 'loop_bound', 64)):
+                raise PathEnd('unwind', 'try_fold')
+    m(r'^<.* as (std::iter::|core::iter::)?Iterator>::try_fold$', m_try_fold, fallback=True)
 
     def m_rev(e, a, c):
         it = a[0]
@@ -933,7 +956,7 @@ def install(eng):
                 return UNIT
             eng.call_value(ctx.frame, f, [v])
             n += 1
-            if n > 64:
+            if n > max(4, getattr(eng, 'loop_bound', 64)):
                 raise PathEnd('unwind', 'for_each')
     m(r'^<.* as (std::iter::|core::iter::)?Iterator>::for_each$', m_for_each, fallback=True)
 
@@ -957,7 +980,7 @@ def install(eng):
                     return opt(eng, norm_ty(ctx.dest_ty) if ctx.dest_ty else 'Option', v)
                 return kind == 'any'
             n += 1
-            if n > 64:
+            if n > max(4, getattr(eng, 'loop_bound', 64)):
                 raise PathEnd('unwind', kind)
         if kind == 'position':
             return opt(eng, 'Option<usize>')
